@@ -8,22 +8,122 @@ import sys
 sys.path.insert(0, os.path.dirname(os.path.abspath(__file__)))
 ROOT = os.path.dirname(os.path.dirname(os.path.abspath(__file__)))
 
+TRUST = ("Trusted: the RFC transcriptions in spec/*.tla (Rfc3986Abnf, Rfc3987Abnf, Parts, PathOps, Resolve, Pct), TLC and the "
+         "CommunityModules Json/IOUtils, rustc/cargo building /repo's working tree, the harness' JSON plumbing. Guarantees "
+         "beyond the complete language facts are bounded-exhaustive within the stated vocabularies (DESIGN.md section 6).")
+
+
+def mc(text, ref, technique, note=TRUST):
+    return {"text": text, "design_ref": ref, "note": note, "technique": technique}
+
+
 CHECKS = {
-    "C01": {
-        "text": "Complete for the language itself: TLC explores the whole product of each cached DFA with the "
-                "Brzozowski-derivative automaton of the RFC production (all 20 types, words of every length) and "
-                "checks equal verdicts in every product state. The compiled validators and every construction route "
-                "(new, owned new, TryFrom, FromStr, from_vec, serde borrowed/owned over str/bytes, serde_json) are "
-                "bound to that DFA by a transition cover of the product automaton replayed through the real code, "
-                "plus bounded-exhaustive strings and random trace validation.",
-        "design_ref": "DESIGN.md section 6, C01",
-        "note": "Trusted: transcription of RFC 3986 App. A / RFC 3987 2.2 ABNF in spec/Rfc398[67]Abnf.tla; TLC; "
-                "the CBOR reader tools/aut2tla.py (cross-checked: compiled code must reproduce the imported DFA's "
-                "verdict on the transition cover); static-regular-grammar's DFA->match code generator is covered, "
-                "not proved.",
-        "technique": "TLA+ spec + TLC: complete product-automaton model checking (DFA x regex derivatives), "
-                     "TLC-generated transition-cover cases replayed into the real parsers",
-    },
+    "C01": mc(
+        "Complete for the language itself: TLC explores the whole product of each cached DFA with the Brzozowski-derivative "
+        "automaton of the RFC production (all 20 types, words of every length) and checks equal verdicts in every product "
+        "state. The compiled validators and every construction route (new, owned new, TryFrom, FromStr, from_vec, serde "
+        "borrowed/owned over str/bytes, serde_json) are bound to that DFA by a transition cover of the product automaton "
+        "replayed through the real code, plus every string of bounded length over a boundary alphabet (garbage included).",
+        "DESIGN.md section 6, C01",
+        "TLA+ spec + TLC: complete product-automaton model checking (DFA x regex derivatives); TLC-generated "
+        "transition-cover and bounded-exhaustive cases replayed into the real parsers",
+        "Trusted: transcription of RFC 3986 App. A / RFC 3987 2.2 ABNF; TLC; the CBOR reader tools/aut2tla.py (cross-checked: the "
+        "compiled code must reproduce the imported DFA's verdict on the transition cover); static-regular-grammar's DFA->match "
+        "code generator is covered, not proved."),
+    "C02": mc(
+        "TLC enumerates exactly the valid (I)RI-references of bounded length over a delimiter-rich alphabet by walking the "
+        "derivative automaton, checks the design theorems of the RFC 3986 section 3 decomposition on each (recomposition, "
+        "component membership, scheme <=> full URI) and prints each with its decomposition; the real accessors and parts() of all "
+        "four types, borrowed and owned, are compared with it, each returned component re-validated, recomposition = text.",
+        "DESIGN.md section 6, C02", "TLA+ spec + TLC: exhaustive enumeration of the valid language within a bound with the spec "
+        "as oracle; cases replayed into the real accessors"),
+    "C03": mc(
+        "Same scheme on authority / iauthority (IP-literals come out of the automaton by themselves), stand-alone and embedded "
+        "in references: user_info/host/port and parts() vs RFC 3986 section 3.2 computed by the spec, parts re-validated, reassembly.",
+        "DESIGN.md section 6, C03", "TLA+ spec + TLC: exhaustive enumeration of valid authorities within a bound; replay"),
+    "C04": mc(
+        "The editor is a TLA+ state machine (spec/Editor.tla); TLC explores every text reachable within a length bound with "
+        "every mutator and argument of the vocabularies, proves the SPECIFIED editor closed under well-formedness, and prints "
+        "every edge; each edge is replayed from its source text on both families (no panic, UTF-8, re-parse as the same type). "
+        "Handle sessions (hidden window state) are covered as whole behaviours of bounded depth.",
+        "DESIGN.md section 6, C04", "TLA+ spec + TLC: reachability over the editor state graph; every edge and handle "
+        "behaviour replayed into the real mutators"),
+    "C05": mc(
+        "Setter edges of the same state graph: the spec fixes the resulting text (disambiguations R1-R3 mandatory exactly when "
+        "needed); TLC checks on the spec that the three rules are sufficient (result re-parses to the intended record) and the "
+        "frame conditions; the real setters must produce a text of the (mostly singleton) admissible set.",
+        "DESIGN.md section 6, C05", "TLA+ spec + TLC: action-level frame/sufficiency assertions on the model; setter edges replayed"),
+    "C06": mc(
+        "All (base, reference) pairs of component vocabularies covering every 5.2.2 branch with dot/empty/colon segments, plus "
+        "the 42 examples printed in RFC 3986 5.4 (checked by TLC against the spec). TLC checks target has a scheme, validity, "
+        "restricted idempotence, and prints the admissible result set (singleton wherever the RFC fixes the text); resolved / "
+        "into_resolved / resolve, both families, must agree and lie in it; base unchanged.",
+        "DESIGN.md section 6, C06", "TLA+ spec + TLC: bounded-exhaustive pairs with the RFC 5.2 operators as oracle; replay"),
+    "C07": mc(
+        "Values of every comparable type composed from vocabularies built to collide (percent-encoded vs literal, dot segments, "
+        "absent vs empty, ill-formed escapes); TLC computes the class key Canon; == / != of ALL pairs of a group (borrowed, owned, "
+        "cross-type) must equal 'same key', under catch_unwind (totality). Agreement of the whole matrix with an equivalence "
+        "computed by the spec is reflexivity, symmetry and transitivity.",
+        "DESIGN.md section 6, C07", "TLA+ spec + TLC: equivalence classes computed by the spec; all-pairs replay"),
+    "C08": mc(
+        "Same groups: cmp/partial_cmp/hash for all pairs; Equal <=> same key; equal keys => equal hashes; total preorder decided "
+        "on the full matrix by a rank certificate; owned vs borrowed; every Borrow view hashes alike; HashSet/BTreeSet lookups.",
+        "DESIGN.md section 6, C08", "TLA+ spec + TLC: class keys from the spec; order/hash laws checked on the complete observed matrix"),
+    "C09": mc(
+        "All paths of bounded segment count over {'', a, ., .., b:c, %2e, e-acute}: TLC proves Rfc524 = stack walk on every absolute "
+        "path, no dots left, admissible renderings exist/keep absoluteness/are fixed points/leave the context's other components; "
+        "normalized_segments, normalized() and in-place normalize (stand-alone and in 6 reference contexts) compared with them.",
+        "DESIGN.md section 6, C09", "TLA+ spec + TLC: exhaustive paths within a bound, theorems on the spec, replay"),
+    "C10": mc(
+        "Behaviours of one path handle: 6 contexts x initial paths x all call sequences of bounded depth over push/pop/clear/"
+        "symbolic_push/symbolic_append/normalize; the model state is the abstract (absoluteness, segment list), each step carries "
+        "the admissible views; the handle's Deref after each call and the buffer after drop are compared; behaviours fork where "
+        "the abstract value depends on the rendering chosen and a group fails only if every branch fails.",
+        "DESIGN.md section 6, C10", "TLA+ spec + TLC: all behaviours of bounded depth of the handle state machine replayed step by step"),
+    "C11": mc(
+        "Behaviours of one authority handle with the window modelled in the spec: TLC checks window coherence, validity and frames "
+        "after every call; exact handle view, sub-component reads and whole text after each call are compared.",
+        "DESIGN.md section 6, C11", "TLA+ spec + TLC: all behaviours of bounded depth replayed; window-coherence invariant"),
+    "C12": mc(
+        "Two-cursor iterator state machine; every interleaving of next/next_back two calls past exhaustion on every path of the "
+        "bound, plus all path queries against the '/'-split.",
+        "DESIGN.md section 6, C12", "TLA+ spec + TLC: exhaustive interleavings of the iterator state machine replayed"),
+    "C13": mc(
+        "Complete: L(U) = L(I) /\\ ASCII* for the 9 type pairs and X = X-reference with a scheme (product of derivative "
+        "automata). Conversions between the four kinds on every enumerated valid reference; identical results of both families "
+        "asserted on every ASCII case of the editor, resolution and comparison models.",
+        "DESIGN.md section 6, C13", "TLA+ spec + TLC: complete product-automaton proofs of the language facts; replay of conversions"),
+    "C14": mc(
+        "Every textual route out reproduces the text and every route in gives the constructor's verdict, for all 20 types, over "
+        "the transition cover and bounded-exhaustive strings of C01; plain-string comparison is text comparison on groups of "
+        "equivalent spellings.",
+        "DESIGN.md section 6, C14", "TLA+ spec + TLC: TLC-generated words (valid and invalid) replayed through every route"),
+    "C15": mc(
+        "Direction B: a.relative_to(b) is executed on TLC-enumerated pairs, recorded, and each event judged by TLC "
+        "(spec/trace/Trace_Events.tla) with the specification's own resolver and equivalence; TLC also checks satisfiability.",
+        "DESIGN.md section 6, C15", "TLA+ spec + TLC: trace validation of recorded calls against the spec's Resolve/Equiv"),
+    "C16": mc(
+        "suffix(): recorded results judged by TLC (existence, remaining segments, query/fragment) on pairs of paths and URIs; TLC "
+        "checks prefix ++ suffix = value. base(): exact text for every enumerated valid reference, valid, no query/fragment.",
+        "DESIGN.md section 6, C16", "TLA+ spec + TLC: trace validation of recorded suffix calls; exhaustive replay for base"),
+    "C17": mc(
+        "One macro invocation per TLC-generated literal (escape-rich alphabet + composed literals): accepted literals are compiled "
+        "into statics whose text, components and equality with the run-time parse are inspected; each rejected literal must "
+        "produce a compile error attributed to its span.",
+        "DESIGN.md section 6, C17", "TLA+ spec + TLC: TLC-generated programs (literals with verdict and components) compiled and run"),
+    "C18": mc(
+        "Strings around the data-URL shape; TLC proves the re-scan and stored-offset formulations agree on every accepted string "
+        "and prints verdict/media type/flag/data/decoded bytes; borrowed and owned constructors and views compared.",
+        "DESIGN.md section 6, C18", "TLA+ spec + TLC: two formulations proved equal on the model; replay"),
+    "C19": mc(
+        "Component texts over a token alphabet containing every class of Unicode Table 3-7; decoded octets always, characters when "
+        "well-formed, no panic, ill-formed never equal to text.",
+        "DESIGN.md section 6, C19", "TLA+ spec + TLC: bounded-exhaustive token strings with Pct/Utf8 spec as oracle; replay"),
+    "C20": mc(
+        "Byte ranges of every component computed by spec/Ranges.tla (ordered, disjoint, inside the input: checked by TLC) vs "
+        "pointer offsets of the returned slices, allocation delta 0 (counting allocator) for parse + accessors + iteration.",
+        "DESIGN.md section 6, C20", "TLA+ spec + TLC: ranges from the spec on every enumerated text; pointer/alloc observations replayed",
+        TRUST + " The counting #[global_allocator] of the harness."),
 }
 
 PENDING = {}
